@@ -43,7 +43,7 @@ prop("C03",
      title="Each layout types the characters of the national layout it is named after",
      encoded=["<layout>::map_keycode for the ten layouts", "Modifiers::is_shifted/is_ctrl/is_altgr/is_caps", "AnyLayout::map_keycode (thorough)"],
      bounds="symbolic key (every KeyCode variant), 9 symbolic modifier flags, symbolic Ctrl mode; one query per layout; no loops",
-     assumptions=["quick: CapsLock off; thorough: CapsLock symbolic with the C10 reading (swaps base/shift on letter cells only)",
+     assumptions=["bare-layout quick harness: CapsLock off; wrapper and thorough harnesses: CapsLock symbolic, where a letter cell may show either of its two legends (which one is C10's business)",
                   "Ctrl not being mapped: not (mode == MapLettersToUnicode and a Ctrl key held)",
                   "Shift+AltGr together carries no expectation",
                   "oracle cells with several acceptable characters where published references disagree (DESIGN.md section 4)"],
